@@ -1918,10 +1918,14 @@ func main() {
 		// empty input of sha and of the hashers
 		s := sha256.Sum256(nil)
 		run.Op("sha", hex.EncodeToString(s[:]))
-		for i := 0; i < a.N; i++ {
+		n := a.N
+		if a.Tier == "search" && n > 24 {
+			n = 24 // the search for a failing input after a broken obligation: two rounds over the versions
+		}
+		for i := 0; i < n; i++ {
 			d.episode(i + int(a.Seed%12))
 		}
-		nc := a.N / 3
+		nc := n / 3
 		if a.Tier == "search" {
 			nc = 2
 		}
